@@ -301,9 +301,9 @@ func (d *recDS) Delete(k ds.Key) error {
 	d.mu.Unlock()
 	return d.inner.Delete(k)
 }
-func (d *recDS) Get(k ds.Key) ([]byte, error)              { return d.inner.Get(k) }
-func (d *recDS) Has(k ds.Key) (bool, error)                { return d.inner.Has(k) }
-func (d *recDS) GetSize(k ds.Key) (int, error)             { return d.inner.GetSize(k) }
+func (d *recDS) Get(k ds.Key) ([]byte, error)  { return d.inner.Get(k) }
+func (d *recDS) Has(k ds.Key) (bool, error)    { return d.inner.Has(k) }
+func (d *recDS) GetSize(k ds.Key) (int, error) { return d.inner.GetSize(k) }
 func (d *recDS) Query(q dsq.Query) (dsq.Results, error) {
 	if inRestore() { // a snapshot restore begins (also when the snapshot and the store are empty)
 		d.mu.Lock()
@@ -313,8 +313,8 @@ func (d *recDS) Query(q dsq.Query) (dsq.Results, error) {
 	}
 	return d.inner.Query(q)
 }
-func (d *recDS) Sync(k ds.Key) error                       { return d.inner.Sync(k) }
-func (d *recDS) Close() error                              { return d.inner.Close() }
+func (d *recDS) Sync(k ds.Key) error { return d.inner.Sync(k) }
+func (d *recDS) Close() error        { return d.inner.Close() }
 func (d *recDS) tokens() []token {
 	d.mu.Lock()
 	defer d.mu.Unlock()
@@ -442,20 +442,21 @@ type opRec struct {
 }
 
 type world struct {
-	run    *simkit.Run
-	plan   *simkit.Plan
-	net    *simkit.Net
-	n      int
-	cids   []cid.Cid
-	base   string
-	cur    []*inc   // current incarnation per peer (may be dead)
-	all    []*inc   // every incarnation
-	ops    []*opRec
-	mu     sync.Mutex
-	nonce  int
-	pend   int
-	lastK  map[*inc]int
-	rotate int
+	ambiguous bool // the committed sequence could not be reconstructed unambiguously: states are not judged against it
+	run       *simkit.Run
+	plan      *simkit.Plan
+	net       *simkit.Net
+	n         int
+	cids      []cid.Cid
+	base      string
+	cur       []*inc // current incarnation per peer (may be dead)
+	all       []*inc // every incarnation
+	ops       []*opRec
+	mu        sync.Mutex
+	nonce     int
+	pend      int
+	lastK     map[*inc]int
+	rotate    int
 }
 
 func (w *world) ids() []peer.ID {
@@ -726,8 +727,12 @@ func (H) Execute(t *testing.T, plan *simkit.Plan, run *simkit.Run) {
 		}
 	}
 	w.net.ConnectAll()
-	// a fresh write must commit and reach everybody within the budget
-	deadline := time.Now().Add(60 * time.Second)
+	// a fresh write must commit and reach everybody within the budget. The budget
+	// covers the slowest legitimate recovery: a leader that kept failing to reach a
+	// peer backs off (hashicorp/raft: up to 10ms*2^12 = 41 s between attempts) while
+	// that peer raises its term and is refused votes; when the leader reaches it
+	// the higher term unseats the leader and an election follows.
+	deadline := time.Now().Add(120 * time.Second)
 	var fresh *opRec
 	for time.Now().Before(deadline) {
 		time.Sleep(2 * time.Second)
@@ -755,7 +760,7 @@ func (H) Execute(t *testing.T, plan *simkit.Plan, run *simkit.Run) {
 		if fresh != nil {
 			e = fmt.Sprintf("done=%v err=%q", fresh.Done, fresh.Err)
 		}
-		run.Violate("C01/liveness_no_commit", "", "60 simulated seconds after the last fault was healed a fresh write has not committed: %s", e)
+		run.Violate("C01/liveness_no_commit", "", "120 simulated seconds after the last fault was healed a fresh write has not committed: %s", e)
 	}
 	w.observe("final", true)
 	w.judgeHistory()
@@ -926,7 +931,7 @@ func (w *world) offline(pi int) {
 		return
 	}
 	want := fold(S[:k])
-	if !sameMap(got, want) {
+	if !w.same(got, want) {
 		w.run.Violate("C01/offline_state_differs", "", "p%d was stopped gracefully having applied %d operations; OfflineState yields %s but the fold of those operations is %s", pi, k, fmtState(got), fmtState(want))
 	}
 }
@@ -1004,163 +1009,186 @@ func opID(t token) string {
 	return "D:" + t.Nonce
 }
 
-// sequence builds the single committed sequence S. Every applied operation
-// has an identity (nonce; a commit retry may legally log the same operation
-// twice, so also an occurrence number). Replicas apply in log order and a
-// snapshot only contains what some replica applied before, hence the order in
-// which operations were FIRST applied anywhere is the log order. S is the
-// identities sorted by first application; every replica's applied run must
-// then be a contiguous stretch of S, else two replicas diverged.
+// sequence reconstructs the single committed sequence S from what the replicas
+// wrote to their stores. Every incarnation's writes fall into pieces: a piece is
+// a run of applied operations that follows either the start of an incarnation on
+// an empty store (the log is replayed from its first entry: the piece starts at
+// position 0) or a snapshot restore (the piece starts where the snapshot ends:
+// the restored content is the fold of the sequence up to there). Replicas apply
+// in log order and a snapshot only holds what some replica applied before it was
+// taken, so taking the pieces in the order of their first write, everything
+// before a piece's start is already known when the piece is placed. A piece is
+// placed where its operations agree with what is known and - after a restore -
+// where the fold of the sequence up to its start is the restored content. (A
+// commit retry may legally log one operation twice, so identities alone do not
+// place a piece.) A piece with no place at all means two replicas diverged.
 func (w *world) sequence() []token {
-	type occ struct {
-		id string
-		k  int
+	S, _ := w.reconstruct()
+	return S
+}
+
+type piece struct {
+	nd    *inc
+	who   string
+	snap  map[string]string // restored content; nil: started on an empty store
+	toks  []token
+	first int
+	start int // position of the first operation in S (-1: not placed)
+}
+
+func classOf(t token) string {
+	if t.Put {
+		return "P:" + t.Nonce
 	}
-	first := map[occ]token{}
-	type run struct {
-		who  string
-		toks []token
-		ids  []occ
-	}
-	var runs []run
+	return "D:" + t.Cid // deletes of one CID are indistinguishable (their names come from asynchronous Untrack calls)
+}
+
+// reconstruct returns S and, per incarnation, how many operations of S it has
+// applied (-1: its last write was a snapshot restore, or its place is unknown).
+func (w *world) reconstruct() ([]token, map[*inc]int) {
+	var pieces []*piece
+	ends := map[*inc]int{}
 	for _, nd := range w.all {
 		if nd.store == nil {
 			continue
 		}
-		seen := map[string]int{}
-		for _, seg := range segments(w.named(nd)) {
-			r := run{who: nd.store.who, toks: seg}
-			for _, t := range seg {
-				id := opID(t)
-				o := occ{id, seen[id]}
-				seen[id]++
-				r.ids = append(r.ids, o)
-				if f, ok := first[o]; !ok || t.Seq < f.Seq {
-					first[o] = t
-				}
+		ends[nd] = 0
+		var cur *piece
+		cur = &piece{nd: nd, who: nd.store.who, start: -1}
+		flush := func() {
+			if cur != nil && len(cur.toks) > 0 {
+				cur.first = cur.toks[0].Seq
+				pieces = append(pieces, cur)
 			}
-			runs = append(runs, r)
+		}
+		inBurst := false
+		for _, t := range w.named(nd) {
+			if t.Restore {
+				if !inBurst || t.Cid == "(restore)" {
+					flush()
+					cur = &piece{nd: nd, who: nd.store.who, snap: map[string]string{}, start: -1}
+					inBurst = true
+				}
+				if t.Put {
+					cur.snap[t.Cid] = t.Render
+				}
+				continue
+			}
+			inBurst = false
+			cur.toks = append(cur.toks, t)
+		}
+		flush()
+		if inBurst {
+			ends[nd] = -1
 		}
 	}
-	keys := make([]occ, 0, len(first))
-	for o := range first {
-		keys = append(keys, o)
-	}
-	sort.Slice(keys, func(i, j int) bool { return first[keys[i]].Seq < first[keys[j]].Seq })
-	S := make([]token, len(keys))
-	at := map[occ]int{}
-	for i, o := range keys {
-		S[i] = first[o]
-		at[o] = i
-	}
-	classOf := func(t token) string {
-		if t.Put {
-			return "P:" + t.Nonce
-		}
-		return "D:" + t.Cid // deletes of one CID are indistinguishable (their names come from asynchronous Untrack calls)
-	}
-	dupInS := false
-	cnt := map[string]int{}
-	for _, t := range S {
-		cnt[opID(t)]++
-		if cnt[opID(t)] > 1 {
-			dupInS = true // a commit retry logged an operation twice
-		}
-	}
-	fits := func(r run, start int) bool {
-		if start < 0 || start+len(r.toks) > len(S) {
-			return false
-		}
-		for i, t := range r.toks {
-			if classOf(t) != classOf(S[start+i]) {
+	sort.SliceStable(pieces, func(i, j int) bool { return pieces[i].first < pieces[j].first })
+	var S []token
+	ambiguous := false
+	matches := func(pc *piece, st int) bool {
+		for i, t := range pc.toks {
+			if st+i < len(S) && classOf(t) != classOf(S[st+i]) {
 				return false
 			}
 		}
 		return true
 	}
-	for _, r := range runs {
-		if len(r.ids) == 0 {
-			continue
-		}
-		if dupInS {
-			// occurrence numbers are per replica and a replica may have seen only
-			// the later copy: try every placement; if none fits the reconstruction
-			// is ambiguous and no verdict is given for this run
-			ok := false
-			for st := 0; st+len(r.toks) <= len(S); st++ {
-				if fits(r, st) {
-					ok = true
-					break
+	for _, pc := range pieces {
+		var byClass, byContent []int
+		if pc.snap == nil {
+			if matches(pc, 0) {
+				byClass, byContent = []int{0}, []int{0}
+			}
+		} else {
+			for st := 0; st <= len(S); st++ {
+				if !matches(pc, st) {
+					continue
 				}
-			}
-			if !ok {
-				w.run.Probe("duplicate_commit_alignment_not_judged")
-			}
-			continue
-		}
-		lo, hi := len(S), -1
-		for _, o := range r.ids {
-			j := at[o]
-			if j < lo {
-				lo = j
-			}
-			if j > hi {
-				hi = j
-			}
-		}
-		bad := hi-lo+1 != len(r.ids)
-		if !bad {
-			for i, t := range r.toks {
-				if classOf(t) != classOf(S[lo+i]) {
-					bad = true
-					break
+				byClass = append(byClass, st)
+				if sameMap(fold(S[:st]), pc.snap) {
+					byContent = append(byContent, st)
 				}
 			}
 		}
-		if bad {
-			var sk, rk []string
-			for _, t := range S {
-				sk = append(sk, opID(t))
+		st := -1
+		switch {
+		case len(byContent) == 1:
+			st = byContent[0]
+		case len(byContent) > 1:
+			// the same operations with the same content before them in more than one
+			// place (adjacent copies of one operation): the places are equivalent for
+			// the fold up to the end of the piece only if nothing but copies lies
+			// between them; do not judge such runs
+			ambiguous = true
+			w.run.Probe("sequence_ambiguous_not_judged")
+			st = byContent[len(byContent)-1]
+		case len(byClass) == 1:
+			// one place by operations, but the snapshot restored before it is not the
+			// fold of the sequence up to there
+			st = byClass[0]
+			if !ambiguous {
+				w.run.Violate("C01/snapshot_not_a_prefix", "", "replica %s restored a snapshot holding %s and went on applying %v, which places it after %d operations of the committed sequence; those fold to %s", pc.who, fmtState(pc.snap), shortToks(pc.toks), st, fmtState(fold(S[:st])))
 			}
-			for _, t := range r.toks {
-				rk = append(rk, opID(t))
+		case len(byClass) > 1:
+			ambiguous = true
+			w.run.Probe("sequence_ambiguous_not_judged")
+			st = byClass[len(byClass)-1]
+		default:
+			if !ambiguous {
+				w.run.Violate("C01/diverged", "", "replica %s applied a run of operations that has no place in the committed sequence (pieces placed in the order of their first write)\n sequence so far: %v\n this replica's run: %v\n restored before it: %s", pc.who, shortToks(S), shortToks(pc.toks), fmtState(pc.snap))
+			} else {
+				w.run.Probe("sequence_ambiguous_not_judged")
 			}
-			w.run.Violate("C01/diverged", "", "replica %s applied a run of operations that is not a contiguous stretch of the committed sequence (operations ordered by first application)\n sequence: %v\n this replica's run: %v", r.who, shortKeys(sk), shortKeys(rk))
+			ends[pc.nd] = -1
 			continue
 		}
-		for i, t := range r.toks {
-			if t.Put && S[lo+i].Render != t.Render {
-				w.run.Violate("C01/diverged_content", "", "two replicas stored different values for the same operation %s:\n %s\n %s", t.Nonce, S[lo+i].Render, t.Render)
-				break
+		pc.start = st
+		for i, t := range pc.toks {
+			j := st + i
+			if j == len(S) {
+				S = append(S, t)
+				continue
 			}
+			if t.Put && S[j].Render != t.Render {
+				w.run.Violate("C01/diverged_content", "", "two replicas stored different values for the same operation %s:\n %s\n %s", t.Nonce, S[j].Render, t.Render)
+			}
+			if t.Seq < S[j].Seq {
+				S[j] = t
+			}
+		}
+		if ends[pc.nd] >= 0 {
+			ends[pc.nd] = st + len(pc.toks)
 		}
 	}
-	return S
+	// an incarnation whose last write was a restore has no known position; one
+	// that wrote nothing is at 0 only if it started on an empty store and stayed so
+	for _, nd := range w.all {
+		if nd.store == nil {
+			continue
+		}
+		toks := nd.store.tokens()
+		if len(toks) > 0 && toks[len(toks)-1].Restore {
+			ends[nd] = -1
+		}
+	}
+	w.ambiguous = ambiguous
+	return S, ends
+}
+
+func shortToks(ts []token) []string {
+	var ks []string
+	for _, t := range ts {
+		ks = append(ks, opID(t))
+	}
+	return shortKeys(ks)
 }
 
 // position is the number of operations of S the incarnation has applied
 // (-1 when its last write was a snapshot restore: then only the content tells).
 func (w *world) position(nd *inc, S []token) int {
-	toks := w.named(nd)
-	if len(toks) == 0 || toks[len(toks)-1].Restore {
-		return -1
-	}
-	// occurrence number of the last applied operation within this incarnation
-	last := toks[len(toks)-1]
-	k := 0
-	for _, t := range toks[:len(toks)-1] {
-		if !t.Restore && opID(t) == opID(last) {
-			k++
-		}
-	}
-	seen := 0
-	for j, t := range S {
-		if opID(t) == opID(last) {
-			if seen == k {
-				return j + 1
-			}
-			seen++
-		}
+	_, ends := w.reconstruct()
+	if k, ok := ends[nd]; ok && k <= len(S) {
+		return k
 	}
 	return -1
 }
@@ -1175,6 +1203,15 @@ func fold(S []token) map[string]string {
 		}
 	}
 	return m
+}
+
+// same compares two pinsets; when the committed sequence could not be
+// reconstructed unambiguously (see reconstruct) nothing is judged against it.
+func (w *world) same(a, b map[string]string) bool {
+	if w.ambiguous {
+		return true
+	}
+	return sameMap(a, b)
 }
 
 func sameMap(a, b map[string]string) bool {
@@ -1236,7 +1273,7 @@ func (w *world) converged() bool {
 			return false
 		}
 		got, err := w.stateOf(nd)
-		if err != nil || !sameMap(got, want) {
+		if err != nil || !w.same(got, want) {
 			return false
 		}
 	}
@@ -1271,12 +1308,12 @@ func (w *world) observe(tag string, final bool) {
 		}
 		ok := false
 		if k >= 0 {
-			ok = sameMap(got, fold(S[:k]))
+			ok = w.same(got, fold(S[:k]))
 		} else {
 			// position unknown (the replica's last write was a snapshot restore):
 			// its pinset must be the fold of SOME prefix
 			for j := 0; j <= len(S); j++ {
-				if sameMap(got, fold(S[:j])) {
+				if w.same(got, fold(S[:j])) {
 					ok = true
 					break
 				}
@@ -1303,7 +1340,7 @@ func (w *world) observe(tag string, final bool) {
 			}
 			w.run.Violate(clause, sig, "%s: replica %s serves %s, which is not the result of applying a prefix of the committed sequence (it has applied %d of %d operations; that prefix folds to %s)", tag, nd.store.who, fmtState(got), k, len(S), fmtState(fold(S[:max(k, 0)])))
 		}
-		if final && !sameMap(got, full) {
+		if final && !w.same(got, full) {
 			// still a legal prefix (checked above): the statement makes no promise
 			// about how fast a replica catches up, so this is a probe, not a clause
 			w.run.Probe("replica_lagging_at_end")
